@@ -49,6 +49,7 @@ type RunRecord struct {
 	Nontrivial bool               `json:"nontrivial"`
 	WallUs     int64              `json:"wall_us"`
 	Sample     json.RawMessage    `json:"sample,omitempty"`
+	Plan       json.RawMessage    `json:"plan,omitempty"` // the executed plan, attached when the run violated something
 }
 
 func TestWorker(t *testing.T) {
@@ -108,6 +109,9 @@ func TestWorker(t *testing.T) {
 			Nontrivial: len(p.Scen.Clients) >= 2 || nf >= 1 || res.Steps >= 8, WallUs: time.Since(t0).Microseconds()}
 		if sample {
 			rec.Sample, _ = json.Marshal(summarize(p))
+		}
+		if len(mine) > 0 {
+			rec.Plan, _ = json.Marshal(p)
 		}
 		if job.DumpHist {
 			for _, e := range res.Events {
